@@ -122,6 +122,17 @@ def gen_case(rnd, spec):
     kind = ["valid", "failing", "invalid", "valid"][(spec["case_index"] + spec["shard"]) % 4] if rnd.random() < 0.8 else rnd.choice(["valid", "invalid", "failing"])
     elems = gen_pipeline(rnd)
     fmt = rnd.choice(["yaml", "yaml", "python"])
+    # two corners that every run visits: a thread service ending with a BaseException, a byte-compiled configuration
+    forced = None
+    if spec["case_index"] == 2 and spec["shard"] in (5, 6, 7, 8):
+        forced = "thread_base_failure" if spec["shard"] in (5, 6) else "compiled_config"
+        kind = "failing" if forced == "thread_base_failure" else "invalid"
+        if forced == "compiled_config":
+            fmt = "python"
+        else:
+            if len(elems) == 1:
+                elems.insert(0, None)
+            elems[0] = ["VSvcThread", "svcT", {"label": "svcT", "period": 0.05}]
     slow = spec["case_index"] == 0 and spec["shard"] in (0, 1)  # the recorded finding, exercised on every run
     if slow:
         kind = "valid"
@@ -137,7 +148,13 @@ def gen_case(rnd, spec):
             victims = [elems[-1]]
         v = rnd.choice(victims)
         v[2]["fail_after"] = rnd.choice([0, 1, 3, 6])
-        v[2]["fail_how"] = rnd.choice(["raise", "return"])
+        v[2]["fail_how"] = rnd.choice(["raise", "return", "raise", "return", "systemexit", "base"])
+        if forced == "thread_base_failure":
+            if v is not elems[0]:
+                v[2].pop("fail_after"), v[2].pop("fail_how")
+                v = elems[0]
+                v[2]["fail_after"] = rnd.choice([0, 1, 3, 6])
+            v[2]["fail_how"] = rnd.choice(["systemexit", "base"])
         case["defect"] = "service %s %ss after %d beats" % (v[1], v[2]["fail_how"], v[2]["fail_after"])
     text = yaml_text(rnd, elems, case["logging"], case["extra"]) if fmt == "yaml" else python_text(rnd, elems)
     if kind == "invalid":
@@ -147,6 +164,8 @@ def gen_case(rnd, spec):
             defect = rnd.choice(["py_raises", "ctor_error", "bad_extension"])
         if fmt == "yaml" and defect == "py_raises":
             defect = "unknown_tag"
+        if forced == "compiled_config":
+            defect = "bad_extension"
         if defect == "unknown_section":
             text += "pipelin: []\n"
         elif defect == "missing_pipeline":
@@ -164,7 +183,9 @@ def gen_case(rnd, spec):
         elif defect == "py_raises":
             text += "raise RuntimeError('configuration module failed on purpose')\n"
         if defect == "bad_extension":
-            case["suffix"] = rnd.choice([".json", ".txt", ".yamll", ".pyx"])
+            case["suffix"] = ".pyc" if forced else rnd.choice([".json", ".txt", ".yamll", ".pyx", ".pyc", ".pyc", ".pyw"])
+            # an extension the daemon does not know with content Python's import machinery could execute
+            case["compiled"] = fmt == "python" and case["suffix"] == ".pyc"
         elif defect == "no_extension":
             case["suffix"] = ""
         elif defect == "missing_file":
@@ -187,7 +208,7 @@ def execute(case, result):
 
     valid = case["kind"] == "valid"
     run = proc.run_daemon(None if case["missing_file"] else case["text"], case["suffix"], ready,
-                          signal_after=case["signal_after"] if valid else None, timeout=25.0, inject=case.get("inject"),
+                          signal_after=case["signal_after"] if valid else None, timeout=25.0, inject=case.get("inject"), compiled=case.get("compiled", False),
                           wait_ready=20.0 if case.get("many") else 8.0)
     problems = []
     what = "%s config%s" % (case["format"], (" with defect: %s" % case["defect"]) if case["defect"] else "")
@@ -259,8 +280,12 @@ def execute(case, result):
             if not failing:
                 bad("the service never reached its failure (exit status %s)" % run.exit_code)
             result.count("failing_services_%s" % ("after_start" if failing else "unreached"))
+            if failing and failing[0].get("how") in ("systemexit", "base"):
+                result.count("failing_services_with_base_exception_%s" % flavour.get(failing[0]["label"], "?"))
         else:
             result.count("defect_" + case["defect"])
+            if case.get("compiled"):
+                result.count("defect_unknown_extension_with_byte_compiled_config")
         if case["logging"]:
             result.count("failures_with_logging_section")
     return problems[:3]
@@ -274,7 +299,8 @@ def run_shard(spec):
 
 def finish(total, tier):
     need = ["daemons_valid", "daemons_invalid", "daemons_failing", "configs_yaml", "configs_python", "services_checked_trio",
-            "services_checked_asyncio", "services_checked_threading", "failing_services_after_start", "valid_with_logging_section", "falsy_services_checked", "private_waiter_services_checked", "services_in_large_injected_configs"]
+            "services_checked_asyncio", "services_checked_threading", "failing_services_after_start", "valid_with_logging_section", "falsy_services_checked", "private_waiter_services_checked", "services_in_large_injected_configs",
+            "failing_services_with_base_exception_threading", "defect_unknown_extension_with_byte_compiled_config"]
     for name in need:
         if not total.counters.get(name) and not total.violations:
             total.inconc("monitor never observed: " + name)
